@@ -93,7 +93,7 @@ Next3(a) == CASE a = "a4" -> "a5" [] a = "a5" -> "a6" [] a = "a6" -> "a4"
 Block(tx, dt, hasTx) ==
     LET h   == HeightOf(n + 1)
         t1  == t + dt
-        sb  == BeginBlockFees(s, C, h, Inits[v].proposer)
+        sb  == AppsBeginBlock(BeginBlockFees(s, C, h, Inits[v].proposer), C, h)
         dl  == IF hasTx THEN AppsDeliver(sb, C, tx, h, t1, 0) ELSE sb
         ok  == hasTx /\ AppsDeliverOK(sb, C, tx, h, t1)
         en  == AppsEndBlock(dl, C, h, t1)
@@ -151,14 +151,14 @@ E == hist'[Len(hist')]
 Authd(e) == e.hasTx /\ e.ante = "ok"
 C28_Design ==
     [][LET e == E IN Authd(e) =>
-         /\ Step_C28_New(e.begun, C, e.tx, e.st, e.ok)
+         /\ Step_C28_NewAt(e.begun, C, e.tx, HeightOf(n + 1), e.st, e.ok)
          /\ Step_C28_Transfer(e.begun, C, e.tx, e.st, e.ok)
          /\ Step_C28_Edit(e.begun, C, e.tx, e.st, e.ok)]_vars
 C23_Design == [][LET e == E IN Authd(e) => Step_C23_App(e.begun, C, e.tx, e.st, e.ok)]_vars
 C24_Design ==
     [][LET e == E IN
          /\ Authd(e) => Step_C24_Deliver(e.begun, C, e.tx, e.t, e.st, e.ok)
-         /\ Step_C24_EndBlock(e.st, e.t, e.end)]_vars
+         /\ Step_C24_EndBlockAt(e.st, C, HeightOf(n + 1), e.t, e.end)]_vars
 \* a request that is not authenticated changes nothing at all
 Unauth_Design == [][LET e == E IN (e.hasTx /\ e.ante # "ok") => e.st = e.begun]_vars
 =============================================================================
